@@ -246,7 +246,7 @@ where
         if self.len() < range.end {
             return None;
         }
-        if range.is_empty() {
+        if range.is_empty() || self.alph_size() <= val {
             return Some(0);
         }
 
@@ -298,6 +298,9 @@ where
     /// ```
     #[inline(always)]
     pub fn select(&self, k: usize, val: usize) -> Option<usize> {
+        if self.alph_size() <= val {
+            return None;
+        }
         self.select_helper(k, val, 0, 0)
     }
 
